@@ -193,7 +193,7 @@ def program(rng, size='small', big_gap=False, aligns=True, data=True, consts=Tru
     return '\n'.join(out) + '\n', meta
 
 
-NSCEN = 17
+NSCEN = 18
 
 
 def scenarios(rng, n):
@@ -312,6 +312,24 @@ def scenarios(rng, n):
             else:
                 src = '{}\nadd x5, x5, x6\nalign {}\nL:\n'.format(ins, rng.choice([4, 8, 16]))
             add(src)
+        elif t == 17:
+            # a label sitting exactly where an align starts (end marker of a table, then the next block is aligned),
+            # referenced from both sides: only what is BEHIND the align may move when its padding settles
+            lead = rng.choice([0, 1, 2, 3, 5, 6])
+            n = rng.choice([2, 4, 8, 16])
+            pre = ['j mark', 'call mark'] if lead % 2 == 0 else []
+            lines = pre + (['bytes ' + ' '.join(['1'] * lead)] if lead else []) + ['mark:', 'align {}'.format(n), 'after:',
+                     'dw mark', 'li t0, mark', 'dw after', 'j after'] + (['j mark', 'tail mark'] if (lead % 2 == 0) else [])
+            src = '\n'.join(lines) + '\n'
+            meta = []
+            for i, l in enumerate(lines, start=1):
+                if l in ('dw mark', 'dw after'):
+                    meta.append({'line': i, 'kind': 'dw', 'label': l.split()[1], 'text': l})
+                elif l == 'li t0, mark':
+                    meta.append({'line': i, 'kind': 'li', 'label': 'mark', 'text': l})
+                elif l.split()[0] in ('j', 'call', 'tail'):
+                    meta.append({'line': i, 'kind': l.split()[0], 'label': l.split()[1], 'text': l})
+            add(src, meta)
         else:
             src = 'start:\nauipc x5, %hi(%offset(start))\njalr x0, x5, %lo(%offset(start))\nlui x6, %hi(start)\nlw x7, x6, %lo(start)\n'
             add(src)
